@@ -1616,6 +1616,23 @@ def rule_own(rows, prop):
                     findings.append(finding("R-OWN.vector.push_back", prop, r, "push_back", "push_back is not {grow when full | size_+1 otherwise; buffer_[size_-1] = t} (grow=%s, inc=%s, store=%s)" % (grow, inc, st)))
             if len(samples) < 3:
                 samples.append("R-OWN %s" % r.get("sig", r["fn"])[:90])
+        elif cls == "nmtools::small_vector" and short == "resize" and "small_vector.hpp" in r["file"]:
+            # growing out of the inline storage: the old contents - prev_size = size() elements, not more - are copied into the new buffer
+            # before it replaces the old one
+            n += 1
+            locs, _ = single_def_locals(r)
+            copies = [f for f in facts if f["k"] == "assign" and re.fullmatch(r"%(\w+)\.at\(%(\w+)\)", f["a"]) and re.search(r"static_ptr\)?\.at\(%\w+\)", f["b"])]
+            if not copies:
+                findings.append(finding("R-OWN.small_vector.grow", prop, r, "resize", "growing path does not copy the inline elements into the new buffer"))
+            for c in copies:
+                iv = "%" + re.fullmatch(r"%(\w+)\.at\(%(\w+)\)", c["a"]).group(2)
+                bounds = [b_ for (op_, a_, b_) in _cmp_guards(c) if op_ == "<" and a_ == iv]
+                okb = any(subst_locals(b_, locs).replace(" ", "") in ("this.size()", "(*%static_ptr).size()", "%static_ptr.size()") for b_ in bounds)
+                if not okb:
+                    findings.append(finding("R-OWN.small_vector.grow", prop, r, "%s = %s" % (c["a"], c["b"]), "copy of the inline elements is bounded by %s, expected the previous size (size() before the resize): elements past the old contents are read" % (bounds or "nothing"), c.get("line")))
+            swaps = [f for f in facts if f["k"] == "assign" and f["a"] == "this.buffer_"]
+            if copies and swaps and not all(sw.get("line", 0) > max(c.get("line", 0) for c in copies) for sw in swaps):
+                findings.append(finding("R-OWN.small_vector.grow", prop, r, "buffer_ = ...", "the new buffer replaces the old one before the old contents are copied"))
         elif re.fullmatch(r"nmtools::utl::(either|maybe)", cls) and short in ("~either", "~maybe") and "vector" in r.get("sig", ""):
             n += 1
             destroys = any(f["k"] == "call" and (".~" in f["b"] or "~" in f["a"]) for f in facts)
@@ -1627,7 +1644,7 @@ def rule_own(rows, prop):
 def comp_own(prop, tier, comp, work):
     t0 = time.time()
     tu = os.path.join(VERIF, "drivers", "utl_inst.cpp")
-    rows, err, cmd = run_nmlint(tu, filters=["/include/nmtools/utl/"], inst=True, cfg=True)
+    rows, err, cmd = run_nmlint(tu, filters=["/include/nmtools/utl/", "/include/nmtools/utility/small_vector.hpp"], inst=True, cfg=True)
     out = dict(broken=[], units=1, functions=len(rows), cmd=cmd)
     if err:
         out["broken"].append(err); return out
